@@ -10,6 +10,7 @@
 (* Location values are structural (harness renders them):                  *)
 (*   0 none  1 "/pK" (relative)  2 "http://a.test/pK"  3 "http://b.test/pK"*)
 (*   4 "http://a.test:8080/pK"  5 "https://a.test/pK"  6 "//b.test/pK"     *)
+(*   7 "https://b.test:8443/pK"  8 "pK" (relative-path reference)          *)
 (* cfg.hdr = 100*A + 10*C + K: A user Authorization values (2 = two        *)
 (* add()s), C Cookie values, K credentials (0 none, 1 in the URL, 2 by     *)
 (* auth_username/auth_password).                                           *)
@@ -60,6 +61,8 @@ Target(r, loc) == CASE loc = 1 -> [scheme |-> r.scheme, host |-> r.host, port |-
                     [] loc = 4 -> [scheme |-> "http", host |-> "a.test", port |-> 8080]
                     [] loc = 5 -> [scheme |-> "https", host |-> "a.test", port |-> 0]
                     [] loc = 6 -> [scheme |-> r.scheme, host |-> "b.test", port |-> 0]
+                    [] loc = 7 -> [scheme |-> "https", host |-> "b.test", port |-> 8443]
+                    [] loc = 8 -> [scheme |-> r.scheme, host |-> r.host, port |-> r.port]
 OriginOf(r) == [scheme |-> r.scheme, host |-> r.host, port |-> r.port]
 Origin0 == [scheme |-> "http", host |-> "a.test", port |-> 0]
 
@@ -76,7 +79,7 @@ NextReq(r, code, loc) ==
         nC |-> IF cross THEN 0 ELSE r.nC,
         (* URL credentials survive only a relative redirect inside the origin; keyword credentials
            any redirect inside the origin *)
-        creds |-> IF cross THEN 0 ELSE IF r.creds = 1 /\ loc # 1 THEN 0 ELSE r.creds]
+        creds |-> IF cross THEN 0 ELSE IF r.creds = 1 /\ loc \notin {1, 8} THEN 0 ELSE r.creds]
 
 InitWith(c) ==
     /\ cfg = c /\ cur = Orig(c) /\ left = c.maxr /\ hops = 0 /\ done = 0
